@@ -434,6 +434,11 @@ def run_builtin_acceptance(res, seed, idx, n, tier):
         "x*x": (lambda x: x * x, "any"), "x/(1+x^2)": (lambda x: x / (1 + x * x), "any"), "dot": (lambda x: anp.dot(x, x), "any"), "outer": (lambda x: anp.outer(x, x), "any"), "logaddexp": (lambda x: anp.logaddexp(x, 0.3), "any"),
         "reshape": (lambda x: anp.reshape(x, (2, 2)), "any"), "var": (anp.var, "any"), "std": (anp.std, "any"), "prod": (anp.prod, "pos"), "index": (lambda x: x[::-1] * x[0], "any"),
     }
+    # correct functions at regular points where an intermediate harmlessly underflows to zero (far tail of a
+    # Gaussian, a stable log-sum-exp with one very negative logit, a softmax weight)
+    funs["underflow:gauss_tail"] = (lambda x: anp.sum(anp.exp(-(x * 12.0) ** 2) + x), "any")
+    funs["underflow:logsumexp"] = (lambda x: (lambda z: anp.max(z) + anp.log(anp.sum(anp.exp(z - anp.max(z)))))(anp.concatenate([x, anp.array([-800.0])]) * 1.0), "any")
+    funs["underflow:softmax_weight"] = (lambda x: (lambda z: anp.sum(x * anp.exp(z[:4] - 1.0) / anp.sum(anp.exp(z - 1.0))))(anp.concatenate([x, anp.array([-760.0])])), "any")
     from ..gen.catalogue import sample
 
     names = sorted(funs)
